@@ -10,7 +10,16 @@
      STATS = count,p01,p05,p10,p20,p50,p80,p90,p95,p99
    Besides the float instance, lines whose numbers all lie on the grid 2^-12 * Z (|x| < 2^40) are recomputed
    with the exact integer instance [Z_ops] -- the instance the order theorems are proved for -- and the
-   discrete results (bins, counts, selected elements) are compared as well (XMISMATCH is also a MISMATCH). *)
+   discrete results (bins, counts, selected elements) are compared as well (XMISMATCH is also a MISMATCH).
+   Extension (position stage, model of C20_FloatDefs):
+     POS p n = value ; lpos ; rpos      detail::percentile over the lazily generated array a[i] = i of n doubles:
+                                        bit-exact comparison with pct_lpos_src / pct_rpos_src / percentile_iota; whenever
+                                        [pos_reference p n] answers (side condition of C20_position_exact) the library's
+                                        indices must be the exact floor / ceiling (PROPFAIL otherwise); for every p in
+                                        [0, 100] and n - 1 <= 2^46 the range clause of C20_position_any is checked
+     MID a b = value                    the midpoint through percentile_sorted of two values: fmid a b bit for bit
+                                        (isfinite(a + b) ? (a + b) / 2 : a / 2 + b / 2, /repo 985fdb5), and the clauses of
+                                        C20_midpoint on the library's value (finite and in [a, b] for all finite a <= b) *)
 let mism = ref 0
 let total = ref 0
 let zchecked = ref 0
@@ -26,6 +35,15 @@ let cur_vals = ref ([] : Float64.t list)
 let cur_sorted = ref ([] : Float64.t list)
 let cur_raw = ref ""
 let cur_zsorted = ref (None : z list option)
+
+let pos_total = ref 0        (* POS lines *)
+let pos_thm = ref 0          (* ... inside the side condition of C20_position_exact *)
+let pos_thm_integral = ref 0 (* ... with an exact position that is an integer *)
+let pos_thm_large = ref 0    (* ... with n >= 2^20 *)
+let pos_range = ref 0        (* ... in the domain of C20_position_any *)
+let mid_total = ref 0
+let mid_overflow = ref 0
+let propfail = ref 0
 
 let report line model =
   incr mism;
@@ -60,7 +78,72 @@ let () =
       | Some sp ->
         let op = String.sub line 0 sp in
         let rest = String.sub line (sp + 1) (String.length line - sp - 1) in
-        if op = "VALS" then begin
+        if op = "POS" then begin
+          (match split_str " = " rest with
+           | [lhs; rhs] ->
+             (match (List.filter (fun t -> t <> "") (String.split_on_char ' ' (trim lhs)), split_str " ; " rhs) with
+              | ([sp; sn], [iv; il; ir]) ->
+                incr total; incr pos_total;
+                let p = fl sp and ni = int_of_string sn in
+                let n = z_of_int ni in
+                let l = int_of_z (pct_lpos_src p n) and r = int_of_z (pct_rpos_src p n) in
+                let v = percentile_iota n p in
+                let libl = int_of_string (trim il) and libr = int_of_string (trim ir) in
+                if not (l = libl && r = libr && same v (fl iv)) then begin
+                  incr mism;
+                  Printf.printf "MISMATCH %s // model: %s ; %d ; %d // values: (lazy array 0..n-1)\n" line (hex v) l r
+                end;
+                (match pos_reference p n with
+                 | Some (el, er) ->
+                   incr pos_thm;
+                   let el = int_of_z el and er = int_of_z er in
+                   if el = er then incr pos_thm_integral;
+                   if ni >= 1048576 then incr pos_thm_large;
+                   if libl <> el || libr <> er then begin
+                     incr propfail;
+                     Printf.printf "PROPFAIL %s // C20_position_exact: exact floor/ceil of the rational position are %d ; %d\n" line el er
+                   end
+                 | None -> ());
+                if pct_in_range p && ni >= 1 && ni - 1 <= 70368744177664 then begin
+                  incr pos_range;
+                  if not (0 <= libl && libl <= libr && libr <= ni - 1 && libr <= libl + 1) then begin
+                    incr propfail;
+                    Printf.printf "PROPFAIL %s // C20_position_any: indices outside 0 <= lpos <= rpos <= n-1, rpos <= lpos+1\n" line
+                  end
+                end
+              | _ -> report line "unparsable POS line")
+           | _ -> report line "unparsable POS line")
+        end else if op = "MID" then begin
+          (match split_str " = " rest with
+           | [lhs; rhs] ->
+             (match List.filter (fun t -> t <> "") (String.split_on_char ' ' (trim lhs)) with
+              | [sa; sb] ->
+                incr total; incr mid_total;
+                let a = fl sa and b = fl sb in
+                let m = fmid a b in
+                let lib = fl rhs in
+                if not (same m lib) then begin
+                  incr mism;
+                  Printf.printf "MISMATCH %s // model: %s // values: (midpoint of two doubles)\n" line (hex m)
+                end;
+                let fa = tf a and fb = tf b and fv = tf lib in
+                if Float.is_finite fa && Float.is_finite fb && fa <= fb then begin
+                  (* C20_midpoint (repaired code): finite and inside [a, b] for ALL finite a <= b *)
+                  if not (Float.is_finite fv && fa <= fv && fv <= fb) then begin
+                    incr propfail;
+                    Printf.printf "PROPFAIL %s // C20_midpoint: the midpoint of finite a <= b must be finite and lie in [a, b]\n" line
+                  end;
+                  if Float.is_finite (fa +. fb) then begin
+                    (* unchanged from before the repair when the sum is finite *)
+                    if not (same lib (fmid_prefix a b)) then begin
+                      incr propfail;
+                      Printf.printf "PROPFAIL %s // C20_midpoint: a + b is finite, the value must be fl(fl(a + b) / 2) = %s\n" line (hex (fmid_prefix a b))
+                    end
+                  end else incr mid_overflow
+                end
+              | _ -> report line "unparsable MID line")
+           | _ -> report line "unparsable MID line")
+        end else if op = "VALS" then begin
           (match String.index_opt rest ' ' with
            | Some k -> cur_raw := String.sub rest (k + 1) (String.length rest - k - 1)
            | None -> cur_raw := "");
@@ -155,4 +238,6 @@ let () =
            | _ -> ())
     done
   with End_of_file -> ());
+  Printf.printf "POS-STAGE pos=%d theorem_instances=%d integral=%d large_n=%d range_instances=%d mid=%d mid_overflow=%d propfail=%d\n"
+    !pos_total !pos_thm !pos_thm_integral !pos_thm_large !pos_range !mid_total !mid_overflow !propfail;
   Printf.printf "MODEL-DONE checked=%d mismatches=%d exact_instance_checked=%d\n" !total !mism !zchecked
